@@ -3,6 +3,7 @@
 package manager
 
 import (
+	"time"
 	"sort"
 
 	"github.com/spq/pkappa2/internal/index"
@@ -124,10 +125,12 @@ func (mgr *Manager) VerifDump() VerifState {
 func (v *View) VerifViewIndexes() []*index.Reader { return v.indexes }
 
 // VerifCloseIndexes closes every index reader the manager still holds. Close leaves them to the
-// end of the process; the harness runs thousands of services in one process.
+// end of the process; the harness runs thousands of services in one process. After Close the
+// service loop can be wedged for good (a closed converter cache keeps its lock, by design), so
+// this gives up after a second instead of waiting for the loop.
 func (mgr *Manager) VerifCloseIndexes() {
 	c := make(chan struct{})
-	mgr.jobs <- func() {
+	f := func() {
 		for r := range mgr.usedIndexes {
 			r.Close()
 		}
@@ -136,5 +139,15 @@ func (mgr *Manager) VerifCloseIndexes() {
 		}
 		close(c)
 	}
-	<-c
+	t := time.NewTimer(time.Second)
+	defer t.Stop()
+	select {
+	case mgr.jobs <- f:
+	case <-t.C:
+		return
+	}
+	select {
+	case <-c:
+	case <-t.C:
+	}
 }
